@@ -609,12 +609,255 @@ static void bfs(const char *scope, int depth) {
     vh_infostr(nm, "%d operations", NOPS);
 }
 
+/* ---------------------------------------------------------------- operand-shape product for the binary set operations
+ * The BFS reaches operands through short histories, so both operands have similar, small sizes.  This section decides
+ * the binary operations on operands of very DIFFERENT shapes: a library of sets of every container type and size
+ * class, every ordered pair of library sets, and against every library set every subset of size <= 3 of a probe
+ * alphabet placed relative to that set (members, non-members, neighbours of members, both ends). */
+#define LIBMAX 64
+static varintBitmap *LIB[LIBMAX];
+static bitset *LIBM;
+static char LIBN[LIBMAX][48];
+static int NLIB = 0;
+
+static void lib_add(const char *name, varintBitmap *vb, const bitset *m) {
+    if (NLIB >= LIBMAX) {
+        return;
+    }
+    LIB[NLIB] = vb;
+    LIBM[NLIB] = *m;
+    snprintf(LIBN[NLIB], sizeof LIBN[NLIB], "%s/%s", name, vb->type < 3 ? TYPEN[vb->type] : "?");
+    NLIB++;
+}
+static void lib_stride(const char *name, uint32_t first, uint32_t stride, uint32_t count, int one_by_one) {
+    varintBitmap *vb = varintBitmapCreate();
+    bitset m;
+    memset(&m, 0, sizeof m);
+    uint16_t *tmp = malloc(count * 2 + 2);
+    uint32_t k = 0;
+    for (uint32_t i = 0; i < count && first + i * stride < U; i++) {
+        tmp[k++] = (uint16_t)(first + i * stride);
+        bs_set(&m, first + i * stride);
+    }
+    if (one_by_one) {
+        for (uint32_t i = 0; i < k; i++) {
+            varintBitmapAdd(vb, tmp[i]); /* ascending single adds */
+        }
+    } else {
+        varintBitmapAddMany(vb, tmp, k);
+    }
+    free(tmp);
+    lib_add(name, vb, &m);
+    /* the same set after Optimize (may change the container) */
+    varintBitmap *o = varintBitmapClone(vb);
+    if (o) {
+        varintBitmapOptimize(o);
+        if (o->type != vb->type) {
+            lib_add(name, o, &m);
+        } else {
+            varintBitmapFree(o);
+        }
+    }
+}
+static void lib_range(const char *name, uint32_t lo, uint32_t hi, uint32_t hole_every) {
+    varintBitmap *vb = varintBitmapCreate();
+    bitset m;
+    memset(&m, 0, sizeof m);
+    varintBitmapAddRange(vb, (uint16_t)lo, (uint16_t)hi);
+    model_range(&m, lo, hi, 1);
+    if (hi == 65535) {
+        varintBitmapAdd(vb, 65535);
+        bs_set(&m, 65535);
+    }
+    if (hole_every) {
+        for (uint32_t x = lo; x < hi; x += hole_every) {
+            varintBitmapRemove(vb, (uint16_t)x);
+            bs_clr(&m, x);
+        }
+    }
+    lib_add(name, vb, &m);
+    varintBitmap *o = varintBitmapClone(vb);
+    if (o) {
+        varintBitmapOptimize(o);
+        if (o->type != vb->type) {
+            lib_add(name, o, &m);
+        } else {
+            varintBitmapFree(o);
+        }
+    }
+}
+static void build_library(void) {
+    LIBM = malloc(sizeof(bitset) * LIBMAX);
+    NLIB = 0;
+    bitset m;
+    memset(&m, 0, sizeof m);
+    lib_add("empty", varintBitmapCreate(), &m);
+    lib_stride("{0}", 0, 1, 1, 1);
+    lib_stride("{65535}", 65535, 1, 1, 1);
+    lib_stride("{4096}", 4096, 1, 1, 1);
+    lib_stride("16 x3", 30, 3, 16, 1);
+    lib_stride("17 x3", 30, 3, 17, 1);
+    lib_stride("65 odd", 1001, 2, 65, 0);
+    lib_stride("129 odd", 1001, 2, 129, 0);
+    lib_stride("193 x5", 7, 5, 193, 0);
+    lib_stride("301 x3", 0, 3, 301, 0);
+    lib_stride("1025 x3", 2, 3, 1025, 0);
+    lib_stride("4095 x7", 0, 7, 4095, 0);
+    lib_stride("4096 x7", 0, 7, 4096, 0);
+    lib_stride("4097 x7", 0, 7, 4097, 0);
+    lib_stride("5000 x13", 0, 13, 5000, 0);
+    lib_stride("4096 consecutive", 100, 1, 4096, 0);
+    lib_stride("300 consecutive", 65236, 1, 300, 0);
+    lib_range("[0,4096)", 0, 4096, 0);
+    lib_range("[10,5000)", 10, 5000, 0);
+    lib_range("[0,65535]", 0, 65535, 0);
+    lib_range("[0,65535] minus x7", 0, 65535, 7);
+    lib_range("[1000,9000) minus x64", 1000, 9000, 64);
+    lib_range("[60000,65535]", 60000, 65535, 0);
+    vh_infostr("pairs_library", "%d sets", NLIB);
+}
+
+static void check_binop(int k, int xi, const varintBitmap *x, const bitset *mx, const char *xn, const varintBitmap *y, const bitset *my, const char *yn) {
+    static const char *API[4] = {"bitmap.And", "bitmap.Or", "bitmap.Xor", "bitmap.AndNot"};
+    const char *api = API[k];
+    (void)xi;
+    snprintf(cur_hist, sizeof cur_hist, "[%s(%s, %s)]", api + 7, xn, yn);
+    varintBitmap *r = k == 0 ? varintBitmapAnd(x, y) : k == 1 ? varintBitmapOr(x, y) : k == 2 ? varintBitmapXor(x, y) : varintBitmapAndNot(x, y);
+    if (!r) {
+        BFAIL("model_divergence", "%s returned NULL", cur_hist);
+        return;
+    }
+    bitset mr;
+    for (int i = 0; i < U / 64; i++) {
+        mr.w[i] = k == 0 ? (mx->w[i] & my->w[i]) : k == 1 ? (mx->w[i] | my->w[i]) : k == 2 ? (mx->w[i] ^ my->w[i]) : (mx->w[i] & ~my->w[i]);
+    }
+    check_observers(api, "result", r, &mr);
+    check_observers(api, "left operand", x, mx);
+    check_observers(api, "right operand", y, my);
+    char ck[96];
+    snprintf(ck, sizeof ck, "binop/%s/%s,%s->%s", api + 7, TYPEN[x->type], TYPEN[y->type], TYPEN[r->type]);
+    vh_class(ck, "%s", cur_hist);
+    varintBitmapFree(r);
+    vh_count("transitions", 1);
+    vh_count("calls", 1);
+}
+
+static void pairs_section(void) {
+    build_library();
+    NPROBES = 0;
+    static const uint32_t PP[] = {0, 1, 2, 3, 30, 31, 33, 75, 78, 100, 102, 500, 600, 899, 900, 901, 1001, 1002, 1003, 1129, 1130, 1131, 1257, 1259, 4095, 4096, 4097, 5000, 9000, 28665, 28672, 60000, 64987, 65000, 65235, 65236, 65534, 65535};
+    for (size_t i = 0; i < sizeof PP / sizeof *PP; i++) {
+        PROBES[NPROBES++] = PP[i];
+    }
+    if (vh_section_begin("pairs")) {
+        /* every ordered pair of library sets x 4 operations */
+        for (int a = 0; a < NLIB; a++) {
+            for (int b = 0; b < NLIB; b++) {
+                if (!vh_case()) {
+                    continue;
+                }
+                if (SB_ENTER()) {
+                    for (int k = 0; k < 4; k++) {
+                        check_binop(k, a, LIB[a], &LIBM[a], LIBN[a], LIB[b], &LIBM[b], LIBN[b]);
+                    }
+                    SB_LEAVE();
+                } else {
+                    vh_fail("bitmap.binop", vh_fault_name(), "untagged", "%s: %s", cur_hist, vh_fault_msg);
+                }
+                vh_count("operand_pairs", 1);
+            }
+        }
+    }
+    if (vh_section_begin("pairs-small")) {
+        /* against every library set L: every subset of size 1..3 of a probe alphabet placed relative to L */
+        for (int a = 0; a < NLIB; a++) {
+            uint32_t P[12];
+            int np = 0;
+            const bitset *m = &LIBM[a];
+            uint32_t first = U, last = U, mid = U, card = bs_card(m), seenc = 0;
+            for (uint32_t x = 0; x < U; x++) {
+                if (bs_get(m, x)) {
+                    if (first == U) {
+                        first = x;
+                    }
+                    last = x;
+                    if (seenc++ == card / 2) {
+                        mid = x;
+                    }
+                }
+            }
+            if (first == U) {
+                first = 5, mid = 4096, last = 65530;
+            }
+            /* members, their immediate neighbours (member or not), the gap before the next member, both ends */
+            uint32_t cand[12] = {0, first, first + 1, mid ? mid - 1 : 0, mid, mid + 1, mid + 2, last ? last - 1 : 0, last, last + 1, 65535, (first + mid) / 2};
+            for (int i = 0; i < 12; i++) {
+                uint32_t x = cand[i] & 0xffff;
+                int dup = 0;
+                for (int j = 0; j < np; j++) {
+                    dup |= P[j] == x;
+                }
+                if (!dup) {
+                    P[np++] = x;
+                }
+            }
+            /* sort ascending */
+            for (int i = 0; i < np; i++) {
+                for (int j = i + 1; j < np; j++) {
+                    if (P[j] < P[i]) {
+                        uint32_t t = P[i];
+                        P[i] = P[j];
+                        P[j] = t;
+                    }
+                }
+            }
+            int maxk = vh_thorough ? 4 : 3;
+            for (uint32_t mask = 1; mask < (1u << np); mask++) {
+                if (__builtin_popcount(mask) > maxk) {
+                    continue;
+                }
+                if (!vh_case()) {
+                    continue;
+                }
+                varintBitmap *sm = varintBitmapCreate();
+                bitset ms;
+                memset(&ms, 0, sizeof ms);
+                char sn[64] = "{";
+                for (int i = 0; i < np; i++) {
+                    if (mask >> i & 1) {
+                        varintBitmapAdd(sm, (uint16_t)P[i]);
+                        bs_set(&ms, P[i]);
+                        snprintf(sn + strlen(sn), sizeof sn - strlen(sn), "%s%u", strlen(sn) > 1 ? "," : "", P[i]);
+                    }
+                }
+                snprintf(sn + strlen(sn), sizeof sn - strlen(sn), "}");
+                if (SB_ENTER()) {
+                    for (int k = 0; k < 4; k++) {
+                        check_binop(k, a, sm, &ms, sn, LIB[a], &LIBM[a], LIBN[a]);
+                        check_binop(k, a, LIB[a], &LIBM[a], LIBN[a], sm, &ms, sn);
+                    }
+                    SB_LEAVE();
+                } else {
+                    vh_fail("bitmap.binop", vh_fault_name(), "untagged", "%s: %s", cur_hist, vh_fault_msg);
+                }
+                varintBitmapFree(sm);
+                vh_count("operand_pairs", 2);
+            }
+        }
+    }
+}
+
 int main(int argc, char **argv) {
     vh_init(argc, argv);
     vh_sandbox_init();
     int dl = vh_thorough ? 4 : 3, ds = vh_thorough ? 6 : 5, dr = vh_thorough ? 5 : 0;
     if (getenv("VERIF_BFS_DEPTH")) {
         dl = atoi(getenv("VERIF_BFS_DEPTH"));
+    }
+    if (vh_replay && strncmp(vh_replay_section, "hist:", 5) != 0) {
+        pairs_section();
+        vh_write_out();
+        return 0;
     }
     if (vh_replay) {
         /* "hist:<scope>:i,j,k#0" : run exactly that history with all checks */
@@ -677,6 +920,7 @@ int main(int argc, char **argv) {
         build_probes();
         bfs("reduced", dr);
     }
+    pairs_section();
     vh_write_out();
     return 0;
 }
